@@ -97,6 +97,14 @@ SPECS = {
         1200,
         60000,
     ),
+    "C10": _rt(
+        "execute hands the payload's outcome to the caller and leaves the runtime alone",
+        "one runtime per seed: bystanders with heartbeats in every flavour, 1-8 execute calls (target flavour x calling context: outside thread, thread payload, coroutine payload of another flavour "
+        "x outcome: None / falsy / truthy object / Exception subclass x argument lists), then a late adoption and a harness shutdown; "
+        "non-trivial = at least one execute call completed; distinct = distinct (multiset of (target, caller, outcome), population, schedule-trace hash)",
+        1200,
+        60000,
+    ),
     "C09": _pl(
         "Periodic services act once per interval",
         "one world per seed: a shipped periodic service over recording pools, a generated timed environment script "
